@@ -27,7 +27,9 @@ LITS = ['.5', '5.', '1_000', '2.5e-1', '1e+16', '0o17', '0b101', '+1', "'v'", '"
 KEYS = ['a', 'b', 'c']
 
 
-KEYSETS = [KEYS, KEYS, KEYS, ['a', 'auth_token', 'password'], ['secret_ref', 'b', 'token'], ['user', 'password', 'x_auth_token']]
+KEYSETS = [KEYS, KEYS, KEYS, ['a', 'auth_token', 'password'], ['secret_ref', 'b', 'token'], ['user', 'password', 'x_auth_token'],
+           # attribute names that are no Python expressions (keywords, a leading digit, a dash): still plain keys
+           ['class', 'a', '0'], ['from', '2fa', 'b'], ['x-y', 'global', 'c']]
 
 
 def rand_value(rng, depth, keys=KEYS):
